@@ -73,7 +73,7 @@ def _abort_case(draw, tier):
         t0 = d.pick([1, delay // 2, delay - 1])
         depth = d.int(0, 2)
         bad_kind = d.pick(["missing-action-transition", "missing-action-entry", "unresolvable-target", "missing-service",
-                           "missing-action-exit", "missing-action-exit"])
+                           "missing-action-exit", "missing-action-exit", "missing-action-exit-child", "missing-action-exit-child"])
         return {"kind": "abort-timer", "engine": engine, "delay": delay, "t0": t0, "depth": depth, "bad": bad_kind}
     prof = gen.profile(**dict(BASE, nested_builtins=False, two_markers=False))
     spec = draw(gen.machine_specs(prof))
@@ -330,6 +330,19 @@ def _timer_spec(case):
              "on": [["BAD", [badT]], ["PING", [{"target": None, "actions": []}]]],
              "children": [{"key": "c", "kind": "atomic"}, {"key": "late", "kind": "atomic"}]}
         depth = 0
+    services = {}
+    if bad == "missing-action-exit-child":
+        # the abort happens in the exit list of the *child*: the timed (and, async, invoking) parent
+        # is in the exit set but - depending on the engine - was not reached yet. Whatever was
+        # cancelled must be re-armed, whatever was not must not get a second timer / service.
+        s = {"key": "s", "kind": "compound", "initial": "c",
+             "after": [[delay, [{"target": None, "actions": [{"k": "user", "name": "tick"}]}]]],
+             "on": [["BAD", [badT]], ["PING", [{"target": None, "actions": []}]]],
+             "children": [{"key": "c", "kind": "atomic", "exit": [{"k": "user", "name": "u_missing"}]}]}
+        if case["engine"] == "async":
+            services["svc"] = {"k": "coro", "outcome": "return", "ms": delay * 4, "value": "$call"}
+            s["invoke"] = [{"src": "svc", "id": "iv"}]
+        depth = 0
     inner = s
     for i in range(depth):
         inner = {"key": "s", "kind": "compound", "initial": inner["key"] if i else "s", "children": [inner],
@@ -338,7 +351,7 @@ def _timer_spec(case):
         inner["children"][0]["key"] = "c"
         inner["initial"] = "c"
     spec = {"id": "m", "root": {"key": "m", "kind": "compound", "initial": "s", "children": [inner, {"key": "t", "kind": "atomic"}, x]},
-            "context": {"n": 0}, "maxIterations": 30, "tables": {}, "services": {}, "impls": {"u_missing": {"k": "missing"}}}
+            "context": {"n": 0}, "maxIterations": 30, "tables": {}, "services": services, "impls": {"u_missing": {"k": "missing"}}}
     finalize(spec)
     return spec
 
@@ -369,6 +382,20 @@ def check_abort_timer(case, res: CaseResult):
     if not any(e[0] == "recv" and e[1] == "PING" for e in ping.log) or not any(e[0] == "trans" for e in ping.log):
         res.violate(f"{engine}|interpreter-dead-after-abort|{shape}", {"log": [e[:2] for e in ping.log][:6]})
     last = steps[4]
+    if shape == "missing-action-exit-child":
+        ticks = [e[5] for o in steps for e in o.log if e[0] == "act" and e[1] == "tick"]
+        if not ticks:
+            res.violate(f"{engine}|after-timer-lost-by-rollback|{shape}", {"cfg": sorted(last.cfg), "delay": delay, "t0": t0})
+        elif len(ticks) > 1:
+            res.violate(f"{engine}|after-timer-armed-twice-by-rollback|{shape}", {"fired_at": ticks, "delay": delay, "t0": t0})
+        calls = [e for o in steps for e in o.log if e[0] == "svc" and e[1] == "call"]
+        cancels = [e for o in steps for e in o.log if e[0] == "svc" and e[1] == "cancelled"]
+        if engine == "async" and len(calls) - len(cancels) != 1:
+            res.violate(f"async|service-not-running-exactly-once-after-rollback|{shape}", {"calls": len(calls), "cancelled": len(cancels)})
+        res.nontrivial = True
+        res.nontrivial_keys = [case_fp(case)]
+        res.classes.append("abort-timer:" + shape)
+        return
     want = "m.s.late" if case["bad"] == "missing-action-exit" else "m.t"
     if want not in last.cfg:
         res.violate(f"{engine}|after-timer-lost-by-rollback|{shape}", {"cfg": sorted(last.cfg), "delay": delay, "t0": t0})
